@@ -22,7 +22,7 @@ MANIFEST = {
     'note': 'Relational oracle against single-target executions; trusts the block splitter (80-dash rule) and json.loads.',
     'technique': 'fault injection into multi-target runs with boundary monitoring (block structure, status rank) and a relational oracle against single-target executions',
 }
-FAILS = ['badname', 'unresolvable', 'refused', 'silent', 'early-close', 'close-before-banner', 'garbage-banner', 'bad-block-size', 'bad-crc', 'truncated-kexinit', 'wrong-first-packet', 'probe-garbage', 'probe-wrong-type', 'probe-malformed-reply']
+FAILS = ['badname', 'unresolvable', 'refused', 'refused-top-port', 'silent', 'early-close', 'close-before-banner', 'garbage-banner', 'bad-block-size', 'bad-crc', 'truncated-kexinit', 'wrong-first-packet', 'probe-garbage', 'probe-wrong-type', 'probe-malformed-reply']
 HEALTHY3 = ['clean', 'terrapin', 'rsa1024']
 RANK = {0: 0, 2: 1, 3: 2, 1: 3, 255: 4}
 _fail_status = {}
@@ -76,7 +76,7 @@ def make_target(name):
     if not name.startswith('!'):
         return multi.Target(name, multi.healthy(name))
     f = name[1:]
-    if f in ('unresolvable', 'refused', 'badname'):
+    if f in ('unresolvable', 'refused', 'badname', 'refused-top-port'):
         return multi.Target(f, kind=f)
     return multi.Target(f, multi.failing(f))
 
@@ -112,7 +112,7 @@ def run_case(c):
             if n.startswith('!'):
                 if t.kind == 'peer' and (t.peer.count('fault') > 0 or t.peer.count('accept') > 0):
                     reached += 1
-                elif t.kind in ('refused', 'unresolvable', 'badname'):
+                elif t.kind in ('refused', 'unresolvable', 'badname', 'refused-top-port'):
                     reached += 1
         counters['failure_reached'] = reached
         tag = '+'.join(sorted(fails)) or 'none'
